@@ -39,7 +39,7 @@ pub fn pick_buffer(rng: &mut Rng) -> i64 {
 }
 
 pub fn all_yields() -> Vec<String> {
-    vec!["process.after_parse".into(), "process.after_execute".into(), "app.static_matched".into(), "file_io".into()]
+    vec!["process.after_parse".into(), "process.after_execute".into(), "app.static_matched".into(), "file_io".into(), "clock".into()]
 }
 
 /// random subset of the stage yield points ("buggify": a random subset of sites per run)
@@ -70,6 +70,10 @@ const DIR_NAMES: &[&str] = &["d1", "d2", "docs", "img", "sub", "\u{43f}\u{430}\u
 
 pub fn pick_size(rng: &mut Rng, big: bool, request_size: i64) -> usize {
     let rs = request_size.max(1) as usize;
+    // now and then a really large file: around 1 MiB, above 8 MiB and above 16 MiB
+    if big && rng.chance(1, 12) {
+        return *rng.pick(&[(1usize << 20) - 1, (1 << 20) + 1, (8 << 20) + 1000, (16 << 20) + 1]);
+    }
     match rng.below(if big { 16 } else { 10 }) {
         0 => 0,
         1 => 1,
@@ -189,7 +193,7 @@ pub fn gen_tree(rng: &mut Rng, opts: &TreeOpts) -> TreeSpec {
             }
         }
     }
-    TreeSpec { root, entries }
+    TreeSpec { root, entries, mtime_mode: if rng.chance(1, 5) { rng.range(1, 6) as u8 } else { 0 } }
 }
 
 /// request paths derived from the tree: every file, directories with and without slash, the
@@ -264,6 +268,82 @@ pub const BENIGN_HEADERS: &[(&str, &str)] = &[
     ("Upgrade", "websocket"), ("X-Requested-With", "XMLHttpRequest"), ("Early-Data", "1"), ("Priority", "u=1, i"), ("Purpose", "prefetch"), ("X-Http-Method-Override", "DELETE"),
     ("Content-Encoding", "gzip"), ("Transfer-Encoding", "chunked"), ("Accept-Charset", "utf-8"), ("From", "bot@example.org"), ("Host", "other.example:8080"),
 ];
+
+/// every standard (and de-facto standard) request header name a server might start to interpret
+pub const HEADER_NAMES: &[&str] = &[
+    "A-IM", "Accept", "Accept-Charset", "Accept-Datetime", "Accept-Encoding", "Accept-Language", "Access-Control-Request-Method", "Access-Control-Request-Headers",
+    "Authorization", "Cache-Control", "Connection", "Content-Encoding", "Content-Length", "Content-MD5", "Content-Type", "Cookie", "Date", "Expect", "Forwarded", "From",
+    "Host", "HTTP2-Settings", "If-Match", "If-Modified-Since", "If-None-Match", "If-Range", "If-Unmodified-Since", "Max-Forwards", "Origin", "Pragma", "Prefer",
+    "Proxy-Authorization", "Range", "Referer", "TE", "Trailer", "Transfer-Encoding", "User-Agent", "Upgrade", "Via", "Warning", "Upgrade-Insecure-Requests",
+    "X-Requested-With", "DNT", "X-Forwarded-For", "X-Forwarded-Host", "X-Forwarded-Proto", "X-Forwarded-Port", "X-Real-IP", "Front-End-Https", "X-Http-Method-Override",
+    "X-ATT-DeviceId", "X-Wap-Profile", "Proxy-Connection", "X-UIDH", "X-Csrf-Token", "X-Request-ID", "X-Correlation-ID", "Correlation-ID", "Save-Data", "Sec-GPC",
+    "Sec-Fetch-Dest", "Sec-Fetch-Mode", "Sec-Fetch-Site", "Sec-Fetch-User", "Sec-CH-UA", "Sec-CH-UA-Arch", "Sec-CH-UA-Bitness", "Sec-CH-UA-Full-Version-List",
+    "Sec-CH-UA-Mobile", "Sec-CH-UA-Model", "Sec-CH-UA-Platform", "Sec-CH-UA-Platform-Version", "Sec-CH-Prefers-Reduced-Motion", "Sec-CH-Prefers-Color-Scheme",
+    "Device-Memory", "Downlink", "ECT", "RTT", "DPR", "Width", "Viewport-Width", "Early-Data", "Priority", "Purpose", "Sec-Purpose", "Service-Worker-Navigation-Preload",
+    "Sec-WebSocket-Key", "Sec-WebSocket-Version", "Sec-WebSocket-Protocol", "Sec-WebSocket-Extensions", "Keep-Alive", "Content-Disposition", "Content-Range", "Content-Location",
+    "Last-Event-ID", "Ping-From", "Ping-To", "Alt-Used", "CDN-Loop", "CF-Connecting-IP", "True-Client-IP", "X-Client-IP", "X-Cluster-Client-IP", "X-Original-URL", "X-Rewrite-URL",
+    "Accept-CH", "Vary", "Last-Modified", "ETag", "Location", "Server", "Set-Cookie", "Allow", "Age", "Expires", "Retry-After", "Link", "NEL", "Digest", "Want-Digest",
+];
+
+/// odd but transmittable header values: unbalanced brackets and quotes, separators, numbers at limits
+pub const ODD_VALUES: &[&str] = &[
+    "", " ", "[", "]", "[::1", "[2001:db8::7", "::1]", "[]", "(", ")", "\"", "\"unterminated", "'", ",", ",,", ";", ";=", "=", "=;", ":", "::", "a:b:c", ":80", "host:", "*", "*/*;q=",
+    "%", "%zz", "%00", "-", "--", "-1", "0", "00", "1e9", "18446744073709551616", "9223372036854775808", "-9223372036854775809", "NaN", "inf", "true", "null", "undefined",
+    "a=b=c", "a;b;c", "a, b,, c", "q=0.0000000001", "bytes", "bytes=", "W/\"", "W/\"x", "\"x\", \"y", "Mon, 99 Foo 9999 99:99:99 GMT", "for=\"[::1", "for=_x;by=", "1.2.3", "1.2.3.4.5",
+    "999.999.999.999", "1.2.3.4:99999", "unknown", "localhost:notaport", "http://", "http://[", "://", "\u{e9}\u{4e16}", "\t", "x\ty", "?1", "?", "u=9, i=?", "keep-alive, close, upgrade",
+];
+
+/// 1..3 headers from the full name list with odd values (for checks whose oracle is only
+/// "answered, no crash"): whatever a future code path starts to parse, it gets ugly input
+pub fn decorate_odd(rng: &mut Rng, request: &[u8]) -> Vec<u8> {
+    let pos = match crate::util::find(request, b"\r\n") {
+        Some(p) => p + 2,
+        None => return request.to_vec(),
+    };
+    let mut v = request[..pos].to_vec();
+    for _ in 0..rng.range(1, 3) {
+        let n = *rng.pick(HEADER_NAMES);
+        let val = if rng.chance(1, 6) { "x".repeat(rng.range(200, 3000)) } else { rng.pick(ODD_VALUES).to_string() };
+        v.extend_from_slice(format!("{}: {}\r\n", n, val).as_bytes());
+    }
+    v.extend_from_slice(&request[pos..]);
+    v
+}
+
+/// the same request with its header lines in another order (order of ordinary headers is free)
+pub fn shuffle_headers(rng: &mut Rng, request: &[u8]) -> Vec<u8> {
+    let head_end = match crate::util::find(request, b"\r\n\r\n") {
+        Some(p) => p,
+        None => return request.to_vec(),
+    };
+    let head = &request[..head_end];
+    let mut lines: Vec<&[u8]> = vec![];
+    let mut start = 0;
+    for i in 0..head.len().saturating_sub(1) {
+        if head[i] == b'\r' && head[i + 1] == b'\n' {
+            lines.push(&head[start..i]);
+            start = i + 2;
+        }
+    }
+    lines.push(&head[start..]);
+    if lines.len() < 3 {
+        return request.to_vec();
+    }
+    let mut hs: Vec<&[u8]> = lines[1..].to_vec();
+    rng.shuffle(&mut hs);
+    let mut v = lines[0].to_vec();
+    for h in hs {
+        v.extend_from_slice(b"\r\n");
+        v.extend_from_slice(h);
+    }
+    v.extend_from_slice(&request[head_end..]);
+    v
+}
+
+/// query parameters a server may one day interpret, with values that decode to header syntax
+pub const QUERY_PARAMS: &[&str] = &["download", "filename", "name", "file", "attachment", "inline", "disposition", "type", "content-type", "charset", "lang", "callback", "cb", "jsonp", "redirect", "next", "url", "return", "format", "ref", "v", "as", "dl", "raw", "origin", "cors", "cache", "etag", "range"];
+pub const QUERY_INJECT: &[&str] = &["x%0D%0AX-Injected:%201", "x%0AX-Injected:%201", "x%0DX-Injected:%201", "x%0D%0A%0D%0A<html>injected", "x%0D%0ASet-Cookie:%20injected=1", "x%22%0D%0AX-Injected:%201", "x%250D%250AX-Injected:%201", "%0D%0AX-Injected:%201%0D%0AX-Tail:%20"];
+pub const QUERY_BENIGN: &[&str] = &["x", "notes.txt", "1", "true", "a%20b", "utf-8", "en"];
 
 /// insert 1..3 dictionary headers after the request line of a well-formed request
 pub fn decorate(rng: &mut Rng, request: &[u8]) -> Vec<u8> {
@@ -414,7 +494,13 @@ pub fn mutated_request(rng: &mut Rng, base_target: &str, buf: usize) -> (&'stati
         41 => ("host_odd", req("GET", t, &[("Host", *rng.pick(&["h:notaport", "h:99999999999999999999999999999999999999999", ":", "", "[::1]:80", "a:b:c"]))], b"")),
         42 => ("origin_hostile", req("GET", t, &[("Origin", "http://a.example\rX-Injected: 1"), ("Access-Control-Request-Headers", "x\0y")], b"")),
         43 => ("duplicate_headers", format!("GET {} HTTP/1.1\r\nHost: a\r\nHost: b\r\nRange: bytes=0-1\r\nRange: bytes=2-3\r\nContent-Length: 1\r\nContent-Length: 2\r\n\r\nab", t).into_bytes()),
-        44 => ("query_odd", get(&format!("{}?{}", t, rng.pick(&["a=b=c", "&&&", "%", "a=%", "=", "\u{fc}=\u{fc}", "a[]=1&a[]=2", "x=1?y=2"])))),
+        44 => {
+            if rng.chance(1, 2) {
+                ("query_param_inject", get(&format!("{}?{}={}", t, rng.pick(QUERY_PARAMS), rng.pick(QUERY_INJECT))))
+            } else {
+                ("query_odd", get(&format!("{}?{}", t, rng.pick(&["a=b=c", "&&&", "%", "a=%", "=", "\u{fc}=\u{fc}", "a[]=1&a[]=2", "x=1?y=2"]))))
+            }
+        }
         _ => {
             let route = *rng.pick(&["/", "/style.css", "/script.js", "/favicon.svg", "/404.html", "/index.html"]);
             if rng.chance(1, 2) {
@@ -590,7 +676,7 @@ pub fn small_tree(nonce: u64) -> TreeSpec {
         kind: EntryKind::File(Content::Gen { marker: format!("{}\n", marker(nonce, k)), len, seed: nonce.wrapping_add(k as u64), binary: false }),
     };
     let lit = |name: &str, b: &str| Entry { path: format!("root/{}", name), kind: EntryKind::File(Content::Literal(b.into())) };
-    TreeSpec { root, entries: vec![f("probe.txt", 0, 64), f("file.txt", 1, 300), f("page.html", 2, 500), f("d/index.html", 3, 200), f("big.bin", 4, 20000), lit("empty.txt", ""), lit("one.txt", "1")] }
+    TreeSpec { root, mtime_mode: 0, entries: vec![f("probe.txt", 0, 64), f("file.txt", 1, 300), f("page.html", 2, 500), f("d/index.html", 3, 200), f("big.bin", 4, 20000), lit("empty.txt", ""), lit("one.txt", "1")] }
 }
 
 pub fn probe_request() -> Vec<u8> {
